@@ -11,18 +11,26 @@ Open Scope N_scope.
 (* (1a) After any history, replaying the requests yields for every prefix of the
    main table exactly the next hops of the selectable paths that no selectable
    path beats in the decision steps before the router id (nothing if there is
-   no selectable path). *)
+   no selectable path).  Histories include inserts under a prefix limit and the
+   restarting-speaker deferral of a family: [run_ok] says that a deferral starts
+   while the family holds no route (it is started at boot); while it lasts
+   ([s_def]) nothing of the family is installed, once it has ended the statement
+   is the one of the property text. *)
 Theorem fib_replay_eq_ecmp_of_best :
   forall (c : cfg) (ops : list op) (p : prefix),
+    run_ok c Fixed st0 ops ->
     let s := fst (run c Fixed st0 ops) in
     let reqs := snd (run c Fixed st0 ops) in
-    fib_replay reqs (None, p) = fib_spec c (s_fl s) (d_l (s_get s p)).
+    fib_replay reqs (None, p) =
+    if memN (fst p) (s_def s) then [] else fib_spec c (s_fl s) (d_l (s_get s p)).
 Proof. exact C20_fib_replay_eq_ecmp_of_best. Qed.
 Check fib_replay_eq_ecmp_of_best :
   forall (c : cfg) (ops : list op) (p : prefix),
+    run_ok c Fixed st0 ops ->
     let s := fst (run c Fixed st0 ops) in
     let reqs := snd (run c Fixed st0 ops) in
-    fib_replay reqs (None, p) = fib_spec c (s_fl s) (d_l (s_get s p)).
+    fib_replay reqs (None, p) =
+    if memN (fst p) (s_def s) then [] else fib_spec c (s_fl s) (d_l (s_get s p)).
 Print Assumptions fib_replay_eq_ecmp_of_best.
 
 (* (1b) For a VPN prefix (VPNv4 or VPNv6), every VRF with a kernel table holds the
@@ -34,22 +42,26 @@ Theorem vrf_fib_replay_eq_ecmp_of_best_outside_known :
   forall (c : cfg) (ops : list op) (p : prefix) (id : N) (imp : list N),
     is_vpn p = true ->
     NoDup (map fst (c_vrfs c)) -> In (id, imp) (c_vrfs c) -> id <> 0 ->
+    run_ok c Fixed st0 ops ->
     let s := fst (run c Fixed st0 ops) in
     let reqs := snd (run c Fixed st0 ops) in
     let l := d_l (s_get s p) in
     ~ Known_C20_3 p (s_keys s) ->
-    fib_replay reqs (Some id, local_pfx p) = vrf_spec c (s_fl s) imp l (hd_error (selectable l)) /\
+    fib_replay reqs (Some id, local_pfx p) =
+      (if memN (fst p) (s_def s) then [] else vrf_spec c (s_fl s) imp l (hd_error (selectable l))) /\
     (forall b, hd_error (selectable l) = Some b -> is_best c (s_fl s) l b).
 Proof. exact C20_vrf_fib_replay_eq_ecmp_of_best_outside_known. Qed.
 Check vrf_fib_replay_eq_ecmp_of_best_outside_known :
   forall (c : cfg) (ops : list op) (p : prefix) (id : N) (imp : list N),
     is_vpn p = true ->
     NoDup (map fst (c_vrfs c)) -> In (id, imp) (c_vrfs c) -> id <> 0 ->
+    run_ok c Fixed st0 ops ->
     let s := fst (run c Fixed st0 ops) in
     let reqs := snd (run c Fixed st0 ops) in
     let l := d_l (s_get s p) in
     ~ Known_C20_3 p (s_keys s) ->
-    fib_replay reqs (Some id, local_pfx p) = vrf_spec c (s_fl s) imp l (hd_error (selectable l)) /\
+    fib_replay reqs (Some id, local_pfx p) =
+      (if memN (fst p) (s_def s) then [] else vrf_spec c (s_fl s) imp l (hd_error (selectable l))) /\
     (forall b, hd_error (selectable l) = Some b -> is_best c (s_fl s) l b).
 Print Assumptions vrf_fib_replay_eq_ecmp_of_best_outside_known.
 
@@ -59,20 +71,22 @@ Print Assumptions vrf_fib_replay_eq_ecmp_of_best_outside_known.
 Theorem vrf_fib_replay_eq_ecmp_of_best_refuted :
   exists (c : cfg) (ops : list op) (p : prefix) (id : N) (imp : list N),
     is_vpn p = true /\ NoDup (map fst (c_vrfs c)) /\ In (id, imp) (c_vrfs c) /\ id <> 0 /\
+    run_ok c Fixed st0 ops /\
     let s := fst (run c Fixed st0 ops) in
     let l := d_l (s_get s p) in
     Known_C20_3 p (s_keys s) /\
     fib_replay (snd (run c Fixed st0 ops)) (Some id, local_pfx p) <>
-    vrf_spec c (s_fl s) imp l (hd_error (selectable l)).
+    (if memN (fst p) (s_def s) then [] else vrf_spec c (s_fl s) imp l (hd_error (selectable l))).
 Proof. exact C20_vrf_fib_replay_eq_ecmp_of_best_refuted. Qed.
 Check vrf_fib_replay_eq_ecmp_of_best_refuted :
   exists (c : cfg) (ops : list op) (p : prefix) (id : N) (imp : list N),
     is_vpn p = true /\ NoDup (map fst (c_vrfs c)) /\ In (id, imp) (c_vrfs c) /\ id <> 0 /\
+    run_ok c Fixed st0 ops /\
     let s := fst (run c Fixed st0 ops) in
     let l := d_l (s_get s p) in
     Known_C20_3 p (s_keys s) /\
     fib_replay (snd (run c Fixed st0 ops)) (Some id, local_pfx p) <>
-    vrf_spec c (s_fl s) imp l (hd_error (selectable l)).
+    (if memN (fst p) (s_def s) then [] else vrf_spec c (s_fl s) imp l (hd_error (selectable l))).
 Print Assumptions vrf_fib_replay_eq_ecmp_of_best_refuted.
 
 (* (2) The registrations outstanding for an address equal the number of
